@@ -453,6 +453,137 @@ def run_frame(c, tmp, tag):
     return out
 
 
+# ------------------------------------------------------------------ scale: one large morphology, judged here against the arrays
+def run_large(c):
+    n = c["n"]
+    conn = [-1] + [(v - 1 if v % 2 == 1 or v == 2 else v - 2) for v in range(1, n)]      # comb: even spine, odd teeth
+    conn[1] = 0
+    verts = [[v, v % 7, -v, 1 + v % 5] for v in range(n)]
+    m = am.ArrayMorphology(vertices=np.array(verts, dtype=float), connectivity=np.array(conn), id="large")
+    out = {"n": n, "conn_head": conn[:8]}
+
+    def good(s, v):
+        return (int(s.id) == v and [s.proximal.x, s.proximal.y, s.proximal.z, s.proximal.diameter] == verts[v]
+                and [s.distal.x, s.distal.y, s.distal.z, s.distal.diameter] == verts[conn[v]])
+
+    L = len(m.segments)
+    out["len"] = L
+    bad = []
+    ok_count = 0
+    for k in range(L):
+        try:
+            s = m.segments[k]
+            if good(s, k + 1):
+                ok_count += 1
+            elif len(bad) < 5:
+                bad.append({"index": k, "observed_id": int(s.id)})
+        except Exception as e:  # noqa: BLE001
+            if len(bad) < 5:
+                bad.append({"index": k, "raised": exc_name(e)})
+    out["indexed_ok"] = ok_count
+    out["first_bad_indices"] = bad
+    m2 = am.ArrayMorphology(vertices=np.array(verts, dtype=float), connectivity=np.array(conn))
+    it = 0
+    try:
+        for _s in m2.segments:          # the iteration protocol (no __iter__: __getitem__ until IndexError)
+            it += 1
+            if it > 2 * n:
+                break
+    except Exception as e:  # noqa: BLE001
+        out["iteration_error"] = exc_name(e)
+    out["iteration_count"] = it
+    refused = {}
+    for k in (L, L + 1, -1, -(n + 1)):
+        try:
+            m2.segments[k]
+            refused[str(k)] = False
+        except IndexError:
+            refused[str(k)] = True
+    out["refused"] = refused
+    try:
+        cs = m2.to_neuroml_morphology(id="c").segments
+        out["conv_count"] = len(cs)
+        out["conv_ok"] = sum(1 for i, s in enumerate(cs) if good(s, i + 1))
+    except Exception as e:  # noqa: BLE001
+        out["conv_count"] = None
+        out["conv_error"] = exc_name(e)
+    return out
+
+
+# ------------------------------------------------------------------ form of the file name
+def run_paths(tmp):
+    import pathlib
+    doc_c = {"cells": [{"id": "c1", "m": {"verts": [[0, 0, 0, 1], [1, 2, 3, 0.5]], "conn": [-1, 0], "mask": None, "id": None}}],
+             "morphs": [{"verts": [[5, 0, 0, 1], [6, 0, -0.0, 2], [7, 1, 1, 0.0]], "conn": [-1, 0, 0], "mask": None, "id": "m1"}]}
+    base = os.path.join(tmp, "path forms")
+    os.makedirs(os.path.join(base, "sub", "deeper"))
+    forms = [("bare name (relative to cwd)", "bare.h5"), ("relative with a directory part", os.path.join("sub", "rel.h5")),
+             ("relative, two directories", os.path.join("sub", "deeper", "rel2.h5")), ("./name", "./dot.h5"),
+             ("absolute", os.path.join(base, "abs.h5")), ("name with spaces", "with two spaces.h5"),
+             ("non-ASCII name", "na\u00efve_\u00fc\u03b1.h5"), ("no extension", "noext"), ("../ component", "sub/../up.h5")]
+    # pathlib.Path only where PyTables itself (below libNeuroML) takes one
+    try:
+        probe = os.path.join(base, "probe.h5")
+        with tables.open_file(pathlib.Path(probe), mode="w"):
+            pass
+        forms.append(("pathlib.Path", pathlib.Path("aspath.h5")))
+    except Exception:  # noqa: BLE001
+        pass
+    res = []
+    old = os.getcwd()
+    os.chdir(base)
+    try:
+        for name, form in forms:
+            try:
+                data, written = build_doc(doc_c)
+                r = roundtrip(data, written, tmp, "p", path=form)
+            except Exception as e:  # noqa: BLE001
+                close_all()
+                r = {"r": "driver:" + exc_name(e), "msg": str(e)[:160]}
+            res.append({"form": name, "path": str(form), "r": r.get("r"), "stage": r.get("stage"), "msg": r.get("msg"),
+                        "np_equal": r.get("np_equal"), "n_loaded": r.get("n_loaded")})
+    finally:
+        os.chdir(old)
+    return res
+
+
+# ------------------------------------------------------------------ repetition: loading the same file again
+def run_reload(c, tmp, tag):
+    path = os.path.join(tmp, tag + "_reload.h5")
+    out = {}
+    try:
+        data, written = build_doc(c["doc"])
+        writers.ArrayMorphWriter.write(data, path)
+        ref = [tuple(np.array(x, copy=True) for x in arrays_of(m)) for m in written]
+        d1 = loaders.ArrayMorphLoader.load(path)
+        first = [arrays_of(m) for m in d1.morphology]
+        out["first_load_equal"] = len(first) == len(ref) and all(any(same_arrays(a, b) for a in first) for b in ref)
+        # use the first result: re-root every morphology in place, touch a vertex
+        for m in d1.morphology:
+            if len(m.connectivity) > 1:
+                m.to_root(len(m.connectivity) - 1)
+            if np.asarray(m.vertices).size:
+                m.vertices[0][0] = m.vertices[0][0] + 1000.0
+        d2 = loaders.ArrayMorphLoader.load(path)
+        second = [arrays_of(m) for m in d2.morphology]
+        out["second_load_equal"] = len(second) == len(ref) and all(any(same_arrays(a, b) for a in second) for b in ref)
+        out["second_load_connectivity"] = [ints(a[1]) for a in second]
+        out["written_connectivity"] = [ints(b[1]) for b in ref]
+        out["same_document_object"] = d1 is d2
+        out["shared_morphology_objects"] = sum(1 for a in d1.morphology for b in d2.morphology if a is b)
+        out["shared_arrays"] = sum(1 for a in first for b in second for x, y in zip(a, b)
+                                   if x.size and y.size and np.shares_memory(x, y))
+        d3 = loaders.ArrayMorphLoader.load(path)
+        third = [arrays_of(m) for m in d3.morphology]
+        out["third_load_equal"] = len(third) == len(ref) and all(any(same_arrays(a, b) for a in third) for b in ref)
+        out["r"] = "ok"
+    except Exception as e:  # noqa: BLE001
+        close_all()
+        out["r"] = exc_name(e)
+        out["msg"] = str(e)[:160]
+    return out
+
+
 def main():
     payload = json.loads(sys.stdin.read() or "{}")
     tmp = tempfile.mkdtemp(prefix="c18_")
@@ -464,6 +595,9 @@ def main():
             "morphs": [run_morph(c, tmp, "m%d" % i) for i, c in enumerate(payload.get("morphs", []))],
             "frames": [run_frame(c, tmp, "f%d" % i) for i, c in enumerate(payload.get("frames", []))],
             "histories": [run_history(c, tmp, "h%d" % i) for i, c in enumerate(payload.get("histories", []))],
+            "large": [run_large(c) for c in payload.get("large", [])],
+            "paths": run_paths(tmp) if payload.get("paths") else [],
+            "reloads": [run_reload(c, tmp, "r%d" % i) for i, c in enumerate(payload.get("reloads", []))],
         }
     finally:
         shutil.rmtree(tmp, ignore_errors=True)
